@@ -534,32 +534,33 @@ def replay(cfg, cex):
         try:
             url = f"http://127.0.0.1:{srv.server_address[1]}/ds"
             if h == "sharded":
-                try:
-                    a = acc_mod.get_accessor_for_url(url)
-                except Exception as e:
-                    return True, f"get_accessor_for_url raised {type(e).__name__}: {e}"
-                if type(a).__name__ != "ShardedHttpAccessor":
-                    return True, f"dispatched to {type(a).__name__}"
-                local = sfa.ShardedFileAccessor(ds)
-                local.info = copy.deepcopy(info)
-                for cc, pl in payloads.items():
+                for sp in (url, "precomputed://" + url + "/"):
                     try:
-                        got = a.fetch_chunk(S.KEY, cc)
+                        a = acc_mod.get_accessor_for_url(sp)
                     except Exception as e:
-                        return True, f"chunk {cc} readable locally but over HTTP: {type(e).__name__}: {e}"
-                    if got != pl:
-                        return True, f"chunk {cc}: HTTP returned {got!r}, stored {pl!r}"
-                    try:
-                        loc = local.fetch_chunk(S.KEY, cc)
-                    except Exception as e:
-                        return True, f"chunk {cc}: read over HTTP ({got!r}) but the local accessor raises {type(e).__name__}: {e} ({'legacy .index/.data' if cfg['legacy'] else '.shard'} files)"
-                    if bytes(loc) != got:
-                        return True, f"chunk {cc}: HTTP returned {got!r}, the local accessor {bytes(loc)!r} ({'legacy .index/.data' if cfg['legacy'] else '.shard'} files)"
-                    with open(os.path.join(ds, "info"), "rb") as f:
-                        want_info = f.read()
-                    got_info = a.fetch_file("info")
-                    if got_info != want_info:
-                        return True, f"info read after chunk {cc} differs from the local file: got {got_info[:40]!r} ({len(got_info)} bytes), expected {len(want_info)} bytes"
+                        return True, f"get_accessor_for_url({sp!r}) raised {type(e).__name__}: {e}"
+                    if type(a).__name__ != "ShardedHttpAccessor":
+                        return True, f"dispatched to {type(a).__name__}"
+                    local = sfa.ShardedFileAccessor(ds)
+                    local.info = copy.deepcopy(info)
+                    for cc, pl in payloads.items():
+                        try:
+                            got = a.fetch_chunk(S.KEY, cc)
+                        except Exception as e:
+                            return True, f"chunk {cc} readable locally but over HTTP: {type(e).__name__}: {e}"
+                        if got != pl:
+                            return True, f"chunk {cc}: HTTP returned {got!r}, stored {pl!r}"
+                        try:
+                            loc = local.fetch_chunk(S.KEY, cc)
+                        except Exception as e:
+                            return True, f"chunk {cc}: read over HTTP ({got!r}) but the local accessor raises {type(e).__name__}: {e} ({'legacy .index/.data' if cfg['legacy'] else '.shard'} files)"
+                        if bytes(loc) != got:
+                            return True, f"chunk {cc}: HTTP returned {got!r}, the local accessor {bytes(loc)!r} ({'legacy .index/.data' if cfg['legacy'] else '.shard'} files)"
+                        with open(os.path.join(ds, "info"), "rb") as f:
+                            want_info = f.read()
+                        got_info = a.fetch_file("info")
+                        if got_info != want_info:
+                            return True, f"info read after chunk {cc} differs from the local file: got {got_info[:40]!r} ({len(got_info)} bytes), expected {len(want_info)} bytes"
                 return False, "HTTP reads equal local reads"
             cc, r, kind = inp["case"]
             cc = tuple(cc)
